@@ -70,6 +70,7 @@ struct Behaviour {
 #[derive(Clone, Debug)]
 enum ArgList {
     I64(Vec<i64>),
+    U64(Vec<u64>),
     F64(Vec<f64>),
     Str(Vec<String>),
     Char(Vec<char>),
@@ -343,6 +344,7 @@ macro_rules! args_fn {
 }
 
 args_fn!(args_i64, i64, I64, |v: Vec<i64>| v, |a: &i64| a.to_string());
+args_fn!(args_u64, u64, U64, |v: Vec<u64>| v, |a: &u64| a.to_string());
 args_fn!(args_f64, f64, F64, |v: Vec<f64>| v, |a: &f64| a.to_string());
 args_fn!(args_string, String, Str, |v: Vec<String>| v, |a: &String| a.to_string());
 args_fn!(args_str, &'static str, Str, |v: Vec<String>| v.into_iter().map(leak).collect::<Vec<&'static str>>(), |a: &&'static str| a.to_string());
@@ -483,6 +485,7 @@ fn main() {
                     let items: Vec<String> = if rest[3] == "-" { Vec::new() } else { rest[3].split(',').map(unhex).collect() };
                     let list = match rest[2].as_str() {
                         "i64" => ArgList::I64(items.iter().map(|s| s.parse().unwrap()).collect()),
+                        "u64" => ArgList::U64(items.iter().map(|s| s.parse().unwrap()).collect()),
                         "f64" => ArgList::F64(items.iter().map(|s| s.parse().unwrap()).collect()),
                         "string" | "str" | "strslice" => ArgList::Str(items),
                         "char" => ArgList::Char(items.iter().map(|s| s.chars().next().unwrap()).collect()),
@@ -538,6 +541,7 @@ fn main() {
                 let ty = &p.f[9];
                 let runner = match ty.as_str() {
                     "i64" => ARGS_I64_FNS[b.slot](),
+                    "u64" => ARGS_U64_FNS[b.slot](),
                     "f64" => ARGS_F64_FNS[b.slot](),
                     "string" => ARGS_STRING_FNS[b.slot](),
                     "str" => ARGS_STR_FNS[b.slot](),
@@ -592,7 +596,8 @@ fn main() {
     // Builder calls, then (optionally) the command line, as `divan::main()` / a custom main would do.
     let mut d = Divan::default();
     for op in &builder_ops {
-        let a = |i: usize| op[i].clone();
+        // a missing argument is the empty string (an empty thread list)
+        let a = |i: usize| op.get(i).cloned().unwrap_or_default();
         d = match op[0].as_str() {
             "sample_count" => d.sample_count(a(1).parse().unwrap()),
             "sample_size" => d.sample_size(a(1).parse().unwrap()),
